@@ -20,6 +20,13 @@ GLOBAL_ASSUMPTIONS = [
 
 # contracts used in place of a body that no unit proves: why they are assumed
 ASSUMED_CONTRACTS = {
+    "trie_lookup_exact": "client reading (ghost script) of the contract proved on the spine by lookup_exact_v4",
+    "pfx_table_find_elem": "client reading of the contract proved by find_elem",
+    "pfx_table_append_elem": "client reading of the contract proved by append_elem",
+    "pfx_table_del_elem": "client reading of the contract proved by del_elem",
+    "pfx_table_create_node": "allocates and fills one node or fails without effect (by reading; not under contract on its body)",
+    "trie_insert": "effect on the trie shown bounded by shape_insert",
+    "trie_remove": "effect on the trie shown bounded by shape_remove",
     "verif_fmt": "libc snprintf: writes at most `size` bytes into the destination and NUL-terminates it",
 }
 
@@ -618,6 +625,12 @@ UNITS = [
       checked_by_assertions=["align_byte_sequence", "req_stream_size", "get_sig_seg_size", "write_stream"], need_classes=["assertion"],
       kind="bounded: 1 hop (quick) / 1..2 hops (thorough), signatures <= 3 bytes, NLRI <= 32 bits", bound=24, unwind_functions={"h_align": 130}, object_bits=11, mem_gb=40,
       tier_defines={"quick": {"MAXHOPS": 1}, "thorough": {"MAXHOPS": 2}}, native=None, timeout={"quick": 1800, "thorough": 7200}, allow_undefined=True, stubs=["lrtr_calloc", "lrtr_malloc", "lrtr_free", "lrtr_dbg"]),
+    U(id="pfx_add", props=["C02", "C09", "C16", "C18"], file="units/pfx_ops.c", entry="h_pfx_add", defines=["H_ENTRY=h_pfx_add"], enforce=["pfx_table_add"],
+      replace=["trie_lookup_exact", "pfx_table_find_elem", "pfx_table_append_elem", "pfx_table_create_node", "trie_insert"],
+      kind="complete", need_classes=["postcondition", "precondition"], native=None, stubs=["pthread_rwlock_*", "lrtr_free"]),
+    U(id="pfx_remove", props=["C02", "C09", "C16", "C18"], file="units/pfx_ops.c", entry="h_pfx_remove", defines=["H_ENTRY=h_pfx_remove"], enforce=["pfx_table_remove"],
+      replace=["trie_lookup_exact", "pfx_table_find_elem", "pfx_table_del_elem", "trie_remove"],
+      kind="complete", need_classes=["postcondition", "precondition"], native=None, stubs=["pthread_rwlock_*", "lrtr_free"]),
     # ------------------------------------------------------------------ C20
     U(id="c20_state_names", props=["C20"], file="units/c20_state_names.c", entry="h_c20_state",
       enforce=["rtr_state_to_str"], kind="complete", bound=70,
